@@ -131,6 +131,18 @@ impl MemoryArea {
     }
 }
 
+/// A zero-filled buffer of the given length, or an error if it cannot be allocated.
+/// The length can come from the guest (brk) or from a file, so an impossible request must not abort the process.
+fn zeroed(length: u64) -> Result<Vec<u8>, AxError> {
+    let len = usize::try_from(length)
+        .map_err(|_| AxError::from(format!("Cannot allocate {length} bytes of memory")))?;
+    let mut data = Vec::new();
+    data.try_reserve_exact(len)
+        .map_err(|e| AxError::from(format!("Cannot allocate {length} bytes of memory: {e}")))?;
+    data.resize(len, 0);
+    Ok(data)
+}
+
 #[wasm_bindgen]
 impl Axecutor {
     // TODO: Currently cannot read consecutive sections of memory
@@ -522,7 +534,7 @@ impl Axecutor {
 
         if let Some(i) = area_to_resize {
             // Resize the area -- this works for both shrinking and growing
-            let mut new_data = vec![0; new_size as usize];
+            let mut new_data = zeroed(new_size)?;
             let old_data = &self.state.memory[i].data;
 
             // Copy the old data into the new data
@@ -647,7 +659,7 @@ impl Axecutor {
     }
     /// Initialize a memory area with the given length.
     pub fn mem_init_zero(&mut self, start: u64, length: u64) -> Result<(), AxError> {
-        self.mem_init_area_named(start, vec![0; length as usize], None)
+        self.mem_init_area_named(start, zeroed(length)?, None)
     }
 
     /// Initialize a memory area with the given length and name.
@@ -657,7 +669,7 @@ impl Axecutor {
         length: u64,
         name: String,
     ) -> Result<(), AxError> {
-        self.mem_init_area_named(start, vec![0; length as usize], Some(name))
+        self.mem_init_area_named(start, zeroed(length)?, Some(name))
     }
 
     /// Initialize a memory area of the given length at a random address.
